@@ -1,4 +1,5 @@
 import KoordVerif.Model.C02
+import KoordVerif.Model.C02Glue
 import KoordVerif.Generated.C02
 /-
 Ties for C02: the structural facts `Calc.step` relies on, extracted from the current source.
@@ -17,5 +18,30 @@ theorem tie_all_mutators_bump : C02.mutators.all (·.2) = true := by decide
 theorem tie_mutators_nonempty : C02.mutators ≠ [] := by decide
 
 theorem tie_refresh_shape : C02.refreshShape = ["return-if-stamp-eq-version", "recompute", "stamp"] := by decide
+
+/-! loop domains: every loop of the calculator that touches a per-dimension tree ranges over
+the receiver's `resourceKeys` (never over the keys of the list it was handed), binds only the key and reads the
+per-dimension value with `list.Name(key)` — what `CalcD.update` does (`if c.keys.contains d … rlGet l d`). -/
+
+theorem tie_tree_loops_over_resource_keys :
+    C02.treeLoops.all (fun r => r.2.1 == "recv.resourceKeys" && r.2.2.1 && r.2.2.2) = true := by decide
+
+theorem tie_tree_loops_cover :
+    ["updateOneGroupMinQuota", "updateOneGroupSharedWeight", "updateOneGroupMaxQuota", "updateOneGroupRequest",
+     "updateOneGroupGuaranteed", "deleteOneGroup", "calculateRuntimeNoLock"].all
+      (fun m => C02.treeLoops.any (fun r => r.1 == m)) = true := by decide
+
+/-- `extension.GetSharedWeight` = the parsed annotation, untouched, when it parses and is not all-zero; else a
+    copy of spec.max (`sharedWeightList`). -/
+theorem tie_shared_weight_shape : C02.sharedWeightShape =
+    ["assign index AnnotationSharedWeight", "if  []", "assign empty-list", "assign call Unmarshal",
+     "if &&==! [IsZero]", "return parsed", "end", "end", "return call DeepCopy of Max"] := by decide
+
+/-- a min change hands the quota's request to the parent's calculator right after the min (`CalcD.minQuotaChanged`). -/
+theorem tie_min_update_pushes_request : C02.minUpdateCalculatorCalls.take 3 =
+    ["updateOneGroupMinQuota", "needUpdateOneGroupRequest", "updateOneGroupRequest"] := by decide
+
+/-- `allowLent`: anything but the label value "false" lends. -/
+theorem tie_allow_lent : C02.allowLentRule = "label LabelAllowLentResource != \"false\"" := by decide
 
 end KoordVerif.C02
